@@ -254,3 +254,24 @@ Proof.
   split; [repeat constructor; simpl; intuition lia|].
   vm_compute. discriminate.
 Qed.
+
+(* ---- purity of the working copy (C06) ---- *)
+Lemma run_updates_fixed_last defaults ws history inc :
+  run_updates upd_fixed defaults ws (history ++ [inc]) = pupdate defaults inc.
+Proof. unfold run_updates. rewrite fold_left_app. reflexivity. Qed.
+
+(* after the fix, what a component sees at a call depends only on that call: for every earlier
+   history and every starting content of the working copy *)
+Theorem history_free defaults ws ws' h h' inc :
+  run_updates upd_fixed defaults ws (h ++ [inc]) = run_updates upd_fixed defaults ws' (h' ++ [inc]).
+Proof. rewrite !run_updates_fixed_last. reflexivity. Qed.
+
+(* as found, a key supplied once (not among the defaults) leaks into every later call *)
+Theorem asfound_leaks :
+  exists defaults inc1 inc2 k,
+    pget k (run_updates upd_asfound defaults [] [inc1; inc2])
+    <> pget k (run_updates upd_asfound defaults [] [inc2]).
+Proof.
+  exists [(0%nat, 1%Q)], [(0%nat, 2%Q); (5%nat, 3%Q)], [(0%nat, 2%Q)], 5%nat.
+  vm_compute. discriminate.
+Qed.
